@@ -228,6 +228,12 @@ func (j *c03Judge) judge(op *world.Op, res *world.Result, preCluster map[string]
 						if atomicUpgrade {
 							continue
 						}
+						if secondary {
+							// the cluster rejected more than one call (e.g. the operation failed by itself and the injected
+							// fault then hit the cleanup's own DELETE): outside the one-failure reading of the clause
+							evid.Note("C03:not-judged/cleanup-on-fail-with-more-than-one-rejected-call")
+							continue
+						}
 						return j.fail("C03:cleanup-on-fail-left-newly-created-resource/"+ctx, fmt.Sprintf("%s still exists; %s", e.Key, hs))
 					}
 				}
